@@ -216,6 +216,16 @@ class Result:
         return m.group(1), frames
 
 
+def die_with_parent():
+    """preexec_fn for every harness process: when the Python worker that started it is killed (pool.terminate at a deadline), the
+    child gets SIGKILL too instead of spinning on as an orphan"""
+    try:
+        import ctypes, signal
+        ctypes.CDLL("libc.so.6", use_errno=True).prctl(1, signal.SIGKILL)   # PR_SET_PDEATHSIG
+    except Exception:
+        pass
+
+
 def evalbatch(variant, files, lang=None, quick_env=False, heap=None, preludes=(), env=None, timeout=300,
               print_values=False, cwd=None, exe="evalbatch", stdin_data=None):
     out = build.build_variant(variant)
@@ -238,7 +248,7 @@ def evalbatch(variant, files, lang=None, quick_env=False, heap=None, preludes=()
     if own:
         cwd = scratch_dir("run")
     try:
-        p = subprocess.run(cmd, cwd=cwd, env=e, stdout=subprocess.PIPE, stderr=subprocess.STDOUT,
+        p = subprocess.run(cmd, cwd=cwd, env=e, stdout=subprocess.PIPE, stderr=subprocess.STDOUT, preexec_fn=die_with_parent,
                            input=stdin_data, stdin=None if stdin_data is not None else subprocess.DEVNULL, timeout=timeout)
         return Result(p.returncode, p.stdout.decode("utf-8", "replace"))
     except subprocess.TimeoutExpired as ex:
@@ -258,7 +268,7 @@ def run_chibi(variant, args, env=None, timeout=300, cwd=None, stdin_data=None):
         cwd = scratch_dir("run")
     try:
         p = subprocess.run([os.path.join(out, "chibi-scheme")] + list(args), cwd=cwd, env=e, stdout=subprocess.PIPE,
-                           stderr=subprocess.STDOUT, input=stdin_data,
+                           stderr=subprocess.STDOUT, input=stdin_data, preexec_fn=die_with_parent,
                            stdin=None if stdin_data is not None else subprocess.DEVNULL, timeout=timeout)
         return Result(p.returncode, p.stdout.decode("utf-8", "replace"))
     except subprocess.TimeoutExpired as ex:
@@ -287,7 +297,7 @@ class Server:
         for p in preludes:
             cmd += ["-P", p]
         cmd += ["--server"]
-        self.p = subprocess.Popen(cmd, cwd=self.dir, env=e, stdin=subprocess.PIPE, stdout=subprocess.PIPE,
+        self.p = subprocess.Popen(cmd, cwd=self.dir, env=e, stdin=subprocess.PIPE, stdout=subprocess.PIPE, preexec_fn=die_with_parent,
                                   stderr=subprocess.STDOUT)
         self.n = 0
         pre = []
